@@ -76,13 +76,20 @@ def main():
                 per.setdefault(fn, [])
             names = [l.split(':', 1)[1] if ':' in l else l for l in f['labels']]
             per[fn] += names if names else ['*']
+        import re as _re
         for x in und:
             print('NOTE %s undecided without hints: %s' % (name, x[:300]))
-            hit = False
-            for h in hinted:
-                if h.split('::')[-1].replace('fn ', '') in x:
-                    per[h].append('*'); hit = True
-            if not hit:
+            # attribute by position in the generated file; a limit hit inside a lemma concerns no function under contract
+            m = _re.search(_re.escape(os.path.basename(u.gen_path)) + r':(\d+):', x)
+            hit = None
+            if m:
+                l0 = int(m.group(1)) - 1
+                for lo, hi, v in u.fn_spans:
+                    if lo <= l0 <= hi and (hit is None or hi - lo < hit[0]):
+                        hit = (hi - lo, v.name())
+            if hit:
+                per.setdefault(hit[1], []).append('*')
+            elif 'resource limit' not in x:
                 for h in hinted:
                     per[h].append('*')
         out[name] = {k: sorted(set(v)) for k, v in sorted(per.items())}
